@@ -30,45 +30,50 @@ def mx(dirs):
     return json.loads(out)
 
 
-want = {int(a) for a in sys.argv[1:]} or {1, 2, 3, 4, 5}
-alld = sorted(glob.glob(os.path.join(V, 'seeded', 'C??-*')))
-for rnd in sorted(want):
-    D = [d for d in alld if round_of(os.path.basename(d)) == (rnd, 'defect')]
-    P = [d for d in alld if round_of(os.path.basename(d))[0] == rnd and round_of(os.path.basename(d))[1] in ('twin', 'refactor')]
-    if not D and not P:
-        continue
-    m = mx(D)
-    own = other = 0
-    none = []
-    for d, v in sorted(m.items()):
-        pid = re.search(r'(C\d\d)', os.path.basename(d)).group(1)
-        mp = os.path.join(d, 'meta.json')
-        meta = json.load(open(mp))
-        rules = v.get('_rules', {})
-        ownr = rules.get(pid, [])
-        others = sorted(p for p, x in v.items() if p != '_rules' and x == 'VIOLATION' and p != pid)
-        und = sorted(p for p, x in v.items() if p != '_rules' and x == 'HOLDS-ON-DECIDED-CLAUSES')
-        meta['caught_by'] = {'own_property_check': ownr, 'other_checks': others, 'own_verdict': v.get(pid), 'undecided_in': und,
-                             'matrix_run': 'tools/refresh_corpus.py (tools/matrix.py) at the commit that last touched this file'}
-        json.dump(meta, open(mp, 'w'), indent=1)
-        own += bool(ownr)
-        other += bool(others and not ownr)
-        if not ownr and not others:
-            none.append(os.path.basename(d))
-    print('round %d defects: %d; %d reported by their own check, %d only by another check, %d not decided by any: %s' % (rnd, len(m), own, other, len(none), ', '.join(none)))
-    p = mx(P)
-    bad, und_items = [], []
-    for d, v in sorted(p.items()):
-        mp = os.path.join(d, 'meta.json')
-        meta = json.load(open(mp))
-        viol = sorted(q for q, x in v.items() if q != '_rules' and x in ('VIOLATION', 'ANALYSIS-ERROR'))
-        und = sorted(q for q, x in v.items() if q != '_rules' and x == 'HOLDS-ON-DECIDED-CLAUSES')
-        if viol:
-            bad.append('%s %s' % (os.path.basename(d), viol))
-        if und:
-            und_items.append('%s (%s)' % (os.path.basename(d), ', '.join(und)))
-        meta['all_19_checks'] = ('no violation' if not viol else 'VIOLATION in %s' % viol) + ('; no undecided clause' if not und else '; undecided clause(s) in %s' % ', '.join(und)) + \
-            ' (tools/refresh_corpus.py at the commit that last touched this file)'
-        json.dump(meta, open(mp, 'w'), indent=1)
-    print('round %d preserving: %d; %d with a violation %s; %d with an undecided clause somewhere' % (rnd, len(p), len(bad), bad, len(und_items)))
-    print('round %d UNDECIDED-LIST: %s' % (rnd, '; '.join(und_items)))
+def main():
+    want = {int(a) for a in sys.argv[1:]} or {1, 2, 3, 4, 5}
+    alld = sorted(glob.glob(os.path.join(V, 'seeded', 'C??-*')))
+    for rnd in sorted(want):
+        D = [d for d in alld if round_of(os.path.basename(d)) == (rnd, 'defect')]
+        P = [d for d in alld if round_of(os.path.basename(d))[0] == rnd and round_of(os.path.basename(d))[1] in ('twin', 'refactor')]
+        if not D and not P:
+            continue
+        m = mx(D)
+        own = other = 0
+        none = []
+        for d, v in sorted(m.items()):
+            pid = re.search(r'(C\d\d)', os.path.basename(d)).group(1)
+            mp = os.path.join(d, 'meta.json')
+            meta = json.load(open(mp))
+            rules = v.get('_rules', {})
+            ownr = rules.get(pid, [])
+            others = sorted(p for p, x in v.items() if p != '_rules' and x == 'VIOLATION' and p != pid)
+            und = sorted(p for p, x in v.items() if p != '_rules' and x == 'HOLDS-ON-DECIDED-CLAUSES')
+            meta['caught_by'] = {'own_property_check': ownr, 'other_checks': others, 'own_verdict': v.get(pid), 'undecided_in': und,
+                                 'matrix_run': 'tools/refresh_corpus.py (tools/matrix.py) at the commit that last touched this file'}
+            json.dump(meta, open(mp, 'w'), indent=1)
+            own += bool(ownr)
+            other += bool(others and not ownr)
+            if not ownr and not others:
+                none.append(os.path.basename(d))
+        print('round %d defects: %d; %d reported by their own check, %d only by another check, %d not decided by any: %s' % (rnd, len(m), own, other, len(none), ', '.join(none)))
+        p = mx(P)
+        bad, und_items = [], []
+        for d, v in sorted(p.items()):
+            mp = os.path.join(d, 'meta.json')
+            meta = json.load(open(mp))
+            viol = sorted(q for q, x in v.items() if q != '_rules' and x in ('VIOLATION', 'ANALYSIS-ERROR'))
+            und = sorted(q for q, x in v.items() if q != '_rules' and x == 'HOLDS-ON-DECIDED-CLAUSES')
+            if viol:
+                bad.append('%s %s' % (os.path.basename(d), viol))
+            if und:
+                und_items.append('%s (%s)' % (os.path.basename(d), ', '.join(und)))
+            meta['all_19_checks'] = ('no violation' if not viol else 'VIOLATION in %s' % viol) + ('; no undecided clause' if not und else '; undecided clause(s) in %s' % ', '.join(und)) + \
+                ' (tools/refresh_corpus.py at the commit that last touched this file)'
+            json.dump(meta, open(mp, 'w'), indent=1)
+        print('round %d preserving: %d; %d with a violation %s; %d with an undecided clause somewhere' % (rnd, len(p), len(bad), bad, len(und_items)))
+        print('round %d UNDECIDED-LIST: %s' % (rnd, '; '.join(und_items)))
+
+
+if __name__ == '__main__':
+    main()
